@@ -2,8 +2,8 @@
 
 Stages: proofs (Properties_C19.v) -> correspondence of registration histories executed on real HookDispatcher
 objects (global / schema / test, every closure produced by to_filterable_hook) and real AuthStorage objects with the
-Coq state machines of Model_C19.v (step / astep evaluated by vm_compute) -> the pre-fix model `register_prefix` must
-DISAGREE with the code (regression sentinel) -> oracle search with real data generation (operation.as_strategy with
+Coq state machines of Model_C19.v (step / astep evaluated by vm_compute) -> the pre-fix models `register_prefix` and
+`as_strategy_case_hooks_prefix` must DISAGREE with the code (regression sentinels for the fixed findings F1, F2) -> oracle search with real data generation (operation.as_strategy with
 hooks on three scopes; an independent reading of the filters written here) -> replay of listed findings.
 """
 from __future__ import annotations
